@@ -8,8 +8,10 @@
    Numbers are integers (the harness stores n/8 as a float, so equality and order of
    binary64 values coincide with equality and order of n).
 
-   `variant` selects between the code as it is (`current`) and the code with the
-   proposed repairs (`repaired`); the correspondence check runs `current`. *)
+   `variant` selects between the code as it is now (`current`: junction-inversion and slicing
+   repairs f11f464 / 127fbf4 applied), the code before those repairs (`legacy`, kept only to
+   document the repaired defects) and the code with the proposed string-escaping repair
+   (`repaired`).  The correspondence check runs `current`. *)
 From Coq Require Import ZArith List Bool String Ascii Lia.
 Import ListNotations.
 Open Scope string_scope.
@@ -76,6 +78,34 @@ Fixpoint prefixb (p s : string) : bool :=
 Fixpoint substrb (p s : string) : bool :=
   prefixb p s || match s with EmptyString => false | String _ s' => substrb p s' end.
 
+(* SQLite LIKE: % = any sequence, _ = any one character, ASCII letters compared case-insensitively *)
+Definition lower (c : ascii) : ascii :=
+  let n := nat_of_ascii c in
+  if Nat.leb 65 n && Nat.leb n 90 then ascii_of_nat (n + 32) else c.
+Definition ci_eqb (a b : ascii) : bool := Ascii.eqb (lower a) (lower b).
+Definition is_pct (c : ascii) : bool := Ascii.eqb c "%"%char.
+Definition is_us (c : ascii) : bool := Ascii.eqb c "_"%char.
+Fixpoint like (p s : string) {struct p} : bool :=
+  match p with
+  | EmptyString => match s with EmptyString => true | _ => false end
+  | String c p' =>
+      if is_pct c
+      then (fix any (t : string) : bool :=
+              like p' t || match t with EmptyString => false | String _ t' => any t' end) s
+      else match s with
+           | EmptyString => false
+           | String d s' => (is_us c || ci_eqb c d) && like p' s'
+           end
+  end.
+Definition like_contains (needle hay : string) : bool := like (String "%"%char (needle ++ "%")) hay.
+(* characters on which LIKE and exact matching agree: no wildcard, no upper-case letter *)
+Definition plain_char (c : ascii) : bool :=
+  negb (is_pct c) && negb (is_us c) && negb (Nat.leb 65 (nat_of_ascii c) && Nat.leb (nat_of_ascii c) 90).
+Fixpoint plain (s : string) : bool :=
+  match s with EmptyString => true | String c s' => plain_char c && plain s' end.
+Fixpoint has_quote (s : string) : bool :=
+  match s with EmptyString => false | String c s' => Ascii.eqb c "'"%char || has_quote s' end.
+
 (* ------------------------------------------------------------------ *)
 (* fit-attribute conditions                                            *)
 (* ------------------------------------------------------------------ *)
@@ -85,7 +115,8 @@ Inductive acond :=
 | AEqN (attr : string) (v : Z)                (* attr = number *)
 | AContains (attr : string) (s : string)      (* attr LIKE '%s%' *)
 | AIn (attr : string) (s : string)            (* 's' LIKE '%' || attr || '%' *)
-| ABool (attr : string).                      (* boolean column as predicate *)
+| ABool (attr : string)                       (* boolean column as predicate *)
+| AEqB (attr : string) (b : bool).            (* attr = True / attr = False *)
 
 Definition opt_str_eqb (a b : option string) : bool :=
   match a, b with Some x, Some y => String.eqb x y | None, None => true | _, _ => false end.
@@ -97,10 +128,11 @@ Definition acond_eqb (a b : acond) : bool :=
   | AContains x v, AContains y w => String.eqb x y && String.eqb v w
   | AIn x v, AIn y w => String.eqb x y && String.eqb v w
   | ABool x, ABool y => String.eqb x y
+  | AEqB x v, AEqB y w => String.eqb x y && Bool.eqb v w
   | _, _ => false
   end.
 
-(* meaning of the SQL condition on one row of `fit`; NULL compares false *)
+(* the test evaluated directly on the Python attribute of the stored fit (None compares false) *)
 Definition acond_holds (f : fit) (a : acond) : bool :=
   match a with
   | AEqS attr v =>
@@ -113,19 +145,39 @@ Definition acond_holds (f : fit) (a : acond) : bool :=
   | AContains attr s => match lookup attr (fstrs f) with Some (Some x) => substrb s x | _ => false end
   | AIn attr s => match lookup attr (fstrs f) with Some (Some x) => substrb x s | _ => false end
   | ABool attr => match lookup attr (fbools f) with Some b => b | None => false end
+  | AEqB attr v => match lookup attr (fbools f) with Some b => Bool.eqb b v | None => false end
   end.
 
-(* the same condition in SQL's three-valued logic: a NULL column makes comparisons and LIKE
-   unknown (None); WHERE keeps a row only when the condition is true *)
+(* the emitted SQL condition in SQL's three-valued logic: a NULL column makes comparisons and
+   LIKE unknown (None); contains / in_ are LIKE patterns; WHERE keeps a row only when true *)
 Definition acond3 (f : fit) (a : acond) : option bool :=
   match a with
   | AEqS attr None => Some (acond_holds f a)                       (* IS NULL is always definite *)
-  | AEqS attr (Some _) | AContains attr _ | AIn attr _ =>
+  | AEqS attr (Some _) =>
       match lookup attr (fstrs f) with
       | Some None => None
       | _ => Some (acond_holds f a)
       end
-  | AEqN _ _ | ABool _ => Some (acond_holds f a)
+  | AContains attr s =>
+      match lookup attr (fstrs f) with
+      | Some None => None
+      | Some (Some x) => Some (like_contains s x)
+      | None => Some false
+      end
+  | AIn attr s =>
+      match lookup attr (fstrs f) with
+      | Some None => None
+      | Some (Some x) => Some (like_contains x s)
+      | None => Some false
+      end
+  | AEqN _ _ | ABool _ | AEqB _ _ => Some (acond_holds f a)
+  end.
+(* LIKE and exact substring agree on this test for this fit *)
+Definition acond_plain (f : fit) (a : acond) : bool :=
+  match a with
+  | AContains attr s | AIn attr s =>
+      plain s && match lookup attr (fstrs f) with Some (Some x) => plain x | _ => true end
+  | _ => true
   end.
 Definition attrs_defined (f : fit) : bool :=
   forallb (fun kv => match snd kv with Some _ => true | None => false end) (fstrs f).
@@ -228,7 +280,7 @@ Fixpoint tables_ok (q : qobj) : bool :=
 (* junction construction: AbstractJunction.__new__ / _match_conditions *)
 (* ------------------------------------------------------------------ *)
 
-Inductive err := EAssertion | ETypeError | EFuel.
+Inductive err := EAssertion | ETypeError | EFuel | EShadow | ESql.
 Inductive result (A : Type) := Ok (a : A) | Err (e : err).
 Arguments Ok {A} a.
 Arguments Err {A} e.
@@ -236,11 +288,13 @@ Definition bind {A B} (r : result A) (k : A -> result B) : result B :=
   match r with Ok a => k a | Err e => Err e end.
 
 Record variant := mkVariant {
-  fix_inverted_merge : bool;     (* inverted NamedQuerys are not merged by name *)
-  fix_slice : bool               (* __getitem__ via slice.indices; top-level filter inside the SQL query *)
+  fix_inverted_merge : bool;     (* inverted NamedQuerys are not merged by name (f11f464) *)
+  fix_slice : bool;              (* __getitem__ via slice.indices; top-level filter inside the SQL query (127fbf4) *)
+  fix_quote : bool               (* string constants are escaped (proposed) *)
 }.
-Definition current := mkVariant false false.
-Definition repaired := mkVariant true true.
+Definition legacy := mkVariant false false false.
+Definition current := mkVariant true true false.
+Definition repaired := mkVariant true true true.
 
 Fixpoint flatten (k : jk) (q : qobj) : list qobj :=
   match q with
@@ -578,12 +632,134 @@ Fixpoint wf_obj (o : obj) : bool :=
 Definition wf_fit (f : fit) : bool := wf_obj (finst f) && str_nodup (map fst (finfo f)).
 
 (* ------------------------------------------------------------------ *)
+(* what the query API cannot express although the predicate is legitimate *)
+(* ------------------------------------------------------------------ *)
+
+(* attribute names of NamedQuery found by normal lookup before __getattr__: a later path segment
+   with such a name yields that attribute (a str, a condition, a set) instead of a query *)
+Definition shadow_names : list string :=
+  ["name"; "condition"; "query"; "tables"; "fit_query"; "tables_string"; "other_condition"].
+Definition path_shadowed (path : list string) : bool :=
+  match path with [] => false | _ :: r => existsb (fun n => mem_str n shadow_names) r end.
+Fixpoint has_shadow (p : pred) : bool :=
+  match p with
+  | PCmp path _ _ => path_shadowed path
+  | PAnd a b | POr a b => has_shadow a || has_shadow b
+  | PNot a => has_shadow a
+  | _ => false
+  end.
+
+(* string constants are interpolated between single quotes without escaping *)
+Definition acond_quote (a : acond) : bool :=
+  match a with
+  | AEqS _ (Some v) => has_quote v
+  | AContains _ v | AIn _ v => has_quote v
+  | _ => false
+  end.
+Fixpoint pred_quote (p : pred) : bool :=
+  match p with
+  | PCmp _ _ (KStr v) => has_quote v
+  | PCmp _ _ _ => false
+  | PAttr a => acond_quote a
+  | PInfo k v => has_quote k || has_quote v
+  | PAnd a b | POr a b => pred_quote a || pred_quote b
+  | PNot a => pred_quote a
+  end.
+Definition quote_bad (vr : variant) (p : pred) : bool := negb (fix_quote vr) && pred_quote p.
+
+(* building the query object (construct stage), then executing its SQL (execute stage) *)
+Definition compile_top (vr : variant) (p : pred) : result qobj :=
+  if has_shadow p then Err EShadow else compile vr p.
+Definition model_query (vr : variant) (db : list fit) (p : pred) : result (list fit) :=
+  bind (compile_top vr p) (fun q => if quote_bad vr p then Err ESql else Ok (select q db)).
+
+(* ------------------------------------------------------------------ *)
+(* arbitrary sequences of query / order_by / slice on one aggregator   *)
+(* ------------------------------------------------------------------ *)
+
+Inductive op :=
+| OQuery (p : pred)
+| OOrder (k : okey) (rev : bool)
+| OSlice (start stop step : option Z).
+
+(* Aggregator state: predicate (None = NullPredicate), order_bys, offset, limit *)
+Record astate := mkA { a_q : option qobj; a_bad : bool; a_keys : list (okey * bool); a_off : Z; a_lim : option Z }.
+Definition a_init := mkA None false [] 0%Z None.
+Definition a_fits (vr : variant) (top_only : bool) (db : list fit) (st : astate) : list fit :=
+  window vr top_only (a_off st) (a_lim st)
+         (ordered (a_keys st) (match a_q st with None => db | Some q => select q db end)).
+
+(* _new_with does not carry offset / limit: query and order_by forget an earlier slice;
+   __getitem__ ignores the step of a slice *)
+Definition op_step (vr : variant) (top_only : bool) (db : list fit) (st : astate) (o : op) : result astate :=
+  match o with
+  | OQuery p =>
+      bind (compile vr p) (fun cq =>
+      bind (match a_q st with None => Ok cq | Some q0 => junction vr JAnd [q0; cq] end) (fun q' =>
+      Ok (mkA (Some q') (a_bad st || quote_bad vr p) (a_keys st) 0%Z None)))
+  | OOrder k rev => Ok (mkA (a_q st) (a_bad st) (a_keys st ++ [(k, rev)]) 0%Z None)
+  | OSlice start stop _ =>
+      if a_bad st then Err ESql
+      else let n := Z.of_nat (List.length (a_fits vr top_only db st)) in
+           let ol := slice_step vr n (a_off st) (a_lim st) start stop in
+           Ok (mkA (a_q st) (a_bad st) (a_keys st) (fst ol) (snd ol))
+  end.
+Fixpoint fold_ops (vr : variant) (top_only : bool) (db : list fit) (st : astate) (ops : list op) : result astate :=
+  match ops with
+  | [] => Ok st
+  | o :: r => bind (op_step vr top_only db st o) (fun st' => fold_ops vr top_only db st' r)
+  end.
+Definition op_preds (ops : list op) : list pred :=
+  flat_map (fun o => match o with OQuery p => [p] | _ => [] end) ops.
+(* the harness builds every predicate of the sequence first, then applies the operations *)
+Definition run_ops (vr : variant) (top_only : bool) (db : list fit) (ops : list op) : result (list fit * list (okey * bool)) :=
+  if existsb has_shadow (op_preds ops) then Err EShadow else
+  bind (map_result (compile vr) (op_preds ops)) (fun _ =>
+  bind (fold_ops vr top_only db a_init ops) (fun st =>
+  if a_bad st then Err ESql else Ok (a_fits vr top_only db st, a_keys st))).
+
+(* the same sequence on a Python list: query = filter, order_by = sort by all keys so far,
+   slice = list slicing including the step *)
+Fixpoint range_z (fuel : nat) (s e step : Z) : list Z :=
+  match fuel with
+  | O => []
+  | S fuel' =>
+      if (0 <? step)%Z then (if (s <? e)%Z then s :: range_z fuel' (s + step) e step else [])
+      else (if (e <? s)%Z then s :: range_z fuel' (s + step) e step else [])
+  end.
+Definition clamp_neg (n i : Z) : Z := if (i <? 0)%Z then Z.max (-1) (n + i) else Z.min i (n - 1).
+Definition py_slice_step {A} (l : list A) (start stop step : option Z) : list A :=
+  match step with
+  | None => py_slice l start stop
+  | Some st =>
+      let n := Z.of_nat (List.length l) in
+      if (0 <? st)%Z then
+        let s := match start with None => 0%Z | Some i => clamp n i end in
+        let e := match stop with None => n | Some i => clamp n i end in
+        flat_map (fun i => match nth_error l (Z.to_nat i) with Some x => [x] | None => [] end)
+                 (range_z (List.length l) s e st)
+      else
+        let s := match start with None => (n - 1)%Z | Some i => clamp_neg n i end in
+        let e := match stop with None => (-1)%Z | Some i => clamp_neg n i end in
+        flat_map (fun i => match nth_error l (Z.to_nat i) with Some x => [x] | None => [] end)
+                 (range_z (List.length l) s e st)
+  end.
+Definition spec_op (st : list fit * list (okey * bool)) (o : op) : list fit * list (okey * bool) :=
+  match o with
+  | OQuery p => (filter (eval p) (fst st), snd st)
+  | OOrder k rev => let keys := snd st ++ [(k, rev)] in (ordered keys (fst st), keys)
+  | OSlice start stop step => (py_slice_step (fst st) start stop step, snd st)
+  end.
+Definition spec_ops (top_only : bool) (db : list fit) (ops : list op) : list fit :=
+  fst (fold_left spec_op ops (if top_only then filter is_top db else db, [])).
+
+(* ------------------------------------------------------------------ *)
 (* correspondence cases                                                *)
 (* ------------------------------------------------------------------ *)
 
 Inductive outcome :=
 | RIds (ids : list string)      (* ids of the returned fits, in the returned order *)
-| RExc (e : err).
+| RExc (e : err).               (* the harness maps (exception class, stage) to err; anything unexpected to EFuel *)
 
 Fixpoint str_list_eqb (a b : list string) : bool :=
   match a, b with
@@ -597,17 +773,27 @@ Fixpoint insert_str (x : string) (l : list string) : list string :=
 Definition sort_str (l : list string) : list string := fold_right insert_str [] l.
 
 Definition err_eqb (a b : err) : bool :=
-  match a, b with EAssertion, EAssertion | ETypeError, ETypeError | EFuel, EFuel => true | _, _ => false end.
+  match a, b with
+  | EAssertion, EAssertion | ETypeError, ETypeError | EFuel, EFuel | EShadow, EShadow | ESql, ESql => true
+  | _, _ => false
+  end.
 
 Inductive case :=
 (* agg.query(p).fits as a set *)
 | CQuery (db : list fit) (p : pred) (top_only : bool) (observed : outcome)
 (* agg.query(p).order_by(k1).order_by(k2)...[s1][s2]....fits as a list; the keys make the order total *)
 | COrder (db : list fit) (p : pred) (top_only : bool) (keys : list (okey * bool))
-         (slices : list (option Z * option Z)) (observed : outcome).
+         (slices : list (option Z * option Z)) (observed : outcome)
+(* any sequence of query / order_by / slice; observed: fits, len(), aggregator[i].id *)
+| COps (db : list fit) (top_only : bool) (ops : list op) (observed : outcome)
+       (olen : Z) (oidx : option (Z * string)).
 
-Definition model_query (vr : variant) (db : list fit) (p : pred) : result (list fit) :=
-  bind (compile vr p) (fun q => Ok (select q db)).
+Definition nth_id (l : list fit) (i : Z) : option string :=
+  let n := Z.of_nat (List.length l) in
+  let j := if (i <? 0)%Z then (n + i)%Z else i in
+  if (j <? 0)%Z then None else option_map fid (nth_error l (Z.to_nat j)).
+Definition opt_str_eq (a : option string) (b : string) : bool :=
+  match a with Some x => String.eqb x b | None => false end.
 
 Definition check_case_with (vr : variant) (c : case) : bool :=
   match c with
@@ -623,17 +809,46 @@ Definition check_case_with (vr : variant) (c : case) : bool :=
       | Err e, RExc e' => err_eqb e e'
       | _, _ => false
       end
+  | COps db top_only ops obs olen oidx =>
+      match run_ops vr top_only db ops, obs with
+      | Ok (l, keys), RIds ids =>
+          (match keys with
+           | [] => str_list_eqb (sort_str (map fid l)) (sort_str ids)
+           | _ => str_list_eqb (map fid l) ids
+           end)
+          && Z.eqb (Z.of_nat (List.length l)) olen
+          && match oidx, keys with
+             | Some (i, x), _ :: _ => opt_str_eq (nth_id l i) x
+             | _, _ => true
+             end
+      | Err e, RExc e' => err_eqb e e'
+      | _, _ => false
+      end
   end.
 Definition check_case := check_case_with current.
 
 (* label functions evaluated by the harness on the abstract case (never on the outcome) *)
-Definition case_pred (c : case) : pred := match c with CQuery _ p _ _ => p | COrder _ p _ _ _ _ => p end.
-Definition case_db (c : case) : list fit := match c with CQuery db _ _ _ => db | COrder db _ _ _ _ _ => db end.
-Definition case_top (c : case) : bool := match c with CQuery _ _ t _ => t | COrder _ _ t _ _ _ => t end.
+Definition case_db (c : case) : list fit :=
+  match c with CQuery db _ _ _ => db | COrder db _ _ _ _ _ => db | COps db _ _ _ _ _ => db end.
+(* the predicate of the case: for an op sequence the left-nested conjunction of its queries *)
+Definition conj_preds (l : list pred) : option pred :=
+  match l with [] => None | p :: r => Some (fold_left PAnd r p) end.
+Definition case_pred (c : case) : option pred :=
+  match c with
+  | CQuery _ p _ _ => Some p
+  | COrder _ p _ _ _ _ => Some p
+  | COps _ _ ops _ _ _ => conj_preds (op_preds ops)
+  end.
+Definition on_pred (c : case) (f : pred -> bool) : bool := match case_pred c with Some p => f p | None => false end.
+
 Definition model_exact (vr : variant) (c : case) : bool :=
-  match model_query vr (case_db c) (case_pred c) with
-  | Ok l => str_list_eqb (map fid l) (map fid (filter (eval (case_pred c)) (case_db c)))
-  | Err _ => false
+  match case_pred c with
+  | Some p =>
+      match model_query vr (case_db c) p with
+      | Ok l => str_list_eqb (map fid l) (map fid (filter (eval p) (case_db c)))
+      | Err _ => false
+      end
+  | None => true
   end.
 Definition slices_exact (vr : variant) (c : case) : bool :=
   match c with
@@ -643,22 +858,48 @@ Definition slices_exact (vr : variant) (c : case) : bool :=
                              (map fid (spec_slices top_only (ordered keys l) slices))
       | Err _ => true
       end
+  | COps db top_only ops _ _ _ =>
+      match run_ops vr top_only db ops with
+      | Ok (l, _) => str_list_eqb (map fid l) (map fid (spec_ops top_only db ops))
+      | Err _ => true
+      end
   | _ => true
   end.
+
+(* columns under a negated fit-attribute test whose SQL value can be NULL *)
+Definition acond_col (a : acond) : list string :=
+  match a with AEqS attr (Some _) | AContains attr _ | AIn attr _ => [attr] | _ => [] end.
+Fixpoint neg_attr_cols (vr : variant) (p : pred) : list string :=
+  match p with
+  | PAnd a b | POr a b => neg_attr_cols vr a ++ neg_attr_cols vr b
+  | PNot a => neg_attr_cols vr a ++ match compile vr a with Ok (QAttr _ ac) => acond_col ac | _ => [] end
+  | _ => []
+  end.
+Definition col_null (db : list fit) (col : string) : bool :=
+  existsb (fun f => match lookup col (fstrs f) with Some None => true | _ => false end) db.
+Fixpoint attr_tests (p : pred) : list acond :=
+  match p with
+  | PAttr a => [a]
+  | PAnd a b | POr a b => attr_tests a ++ attr_tests b
+  | PNot a => attr_tests a
+  | _ => []
+  end.
+
 Definition bit (b : bool) (w : N) : N := if b then w else 0%N.
 Definition case_labels_with (vr : variant) (c : case) : N :=
-  let p := case_pred c in
   (bit (check_case_with vr c) 1
-   + bit (negb (safe_with vr true false false false p)) 2          (* inverted NamedQuery in a name merge *)
-   + bit (negb (safe_with vr false true false false p)) 4          (* Or-merge over different tables *)
-   + bit (has_not_junction vr p) 8                           (* ~ of a junction *)
-   + bit (negb (safe_with vr false false true false p)) 16         (* ~ of an info test *)
-   + bit (match compile vr p with Err EAssertion => true | _ => false end) 32
+   + bit (on_pred c (fun p => negb (safe_with vr true false false false p))) 2    (* inverted NamedQuery in a name merge *)
+   + bit (on_pred c (fun p => negb (safe_with vr false true false false p))) 4    (* Or-merge over different tables *)
+   + bit (on_pred c (has_not_junction vr)) 8                                      (* ~ of a junction *)
+   + bit (on_pred c (fun p => negb (safe_with vr false false true false p))) 16   (* ~ of an info test *)
+   + bit (on_pred c (fun p => match compile vr p with Err EAssertion => true | _ => false end)) 32
    + bit (model_exact vr c) 64
    + bit (slices_exact vr c) 128
-   + bit (negb (safe_with vr false false false true p) && negb (forallb attrs_defined (case_db c))) 256)%N.   (* negated attribute test, NULL column *)
+   + bit (on_pred c (fun p => existsb (col_null (case_db c)) (neg_attr_cols vr p))) 256  (* negated test on a column holding NULL *)
+   + bit (on_pred c (fun p => existsb (fun a => existsb (fun f => negb (acond_plain f a)) (case_db c)) (attr_tests p))) 512  (* LIKE <> substring *)
+   + bit (on_pred c (quote_bad vr)) 1024                                          (* unescaped quote *)
+   + bit (on_pred c has_shadow) 2048)%N.                                          (* shadowed path segment *)
 Definition case_labels := case_labels_with current.
-(* variants used when a proposed repair is tried on a scratch copy (VERIF_C10_VARIANT) *)
+(* variants used when a repair is tried on a scratch copy, or the repaired ones reverted (VERIF_C10_VARIANT) *)
 Definition case_labels_repaired := case_labels_with repaired.
-Definition case_labels_inv := case_labels_with (mkVariant true false).
-Definition case_labels_slice := case_labels_with (mkVariant false true).
+Definition case_labels_legacy := case_labels_with legacy.
